@@ -41,12 +41,12 @@ def unit():
         mod_add_wrap(i, (s - i) % m, m);
     }
 ''', fns={
-            'get_block_pos': FnC(ret='r', props=('C10', 'C13'), inherits=True, ensures=[
-                ('pos', ('C10',), 'r as int == (self.s as int - self.s_init as int) % two128()')],
+            'get_block_pos': FnC(ret='r', props=('C10', 'C13', 'C06'), inherits=True, ensures=[
+                ('pos', ('C10', 'C06'), 'r as int == (self.s as int - self.s_init as int) % two128()')],
                 stmts={'0': 'proof { mod_sub_wrap(self.s as int, self.s_init as int, two128()); }'}),
-            'set_block_pos': FnC(props=('C10', 'C13'), inherits=True, ensures=[
-                ('pos', ('C10',), 'final(self).s as int == (old(self).s_init as int + pos as int) % two128()'),
-                ('origin_kept', ('C10',), 'final(self).s_init == old(self).s_init'),
+            'set_block_pos': FnC(props=('C10', 'C13', 'C06'), inherits=True, ensures=[
+                ('pos', ('C10', 'C06'), 'final(self).s as int == (old(self).s_init as int + pos as int) % two128()'),
+                ('origin_kept', ('C10', 'C06'), 'final(self).s_init == old(self).s_init'),
                 ('frame_cipher', ('C10',), 'final(self).cipher == old(self).cipher')],
                 stmts={'end': '''
         proof {
